@@ -165,4 +165,16 @@ theorem c06_blendweights_byte4_witness :
       [0x43000000, 0x43000000, 0x43000000, 0x437F0000] := by
   decide +kernel
 
+/-! ## further non-vacuity instances on `sampleModel` -/
+
+/-- hypotheses of `c06_grammar_roundtrip`, `c06_headers_of_encode`, `c06_names` -/
+example : modelDataOk (fileHeader sampleModel) (modelData sampleModel) = true := by decide +kernel
+
+/-- hypotheses of `c06_element_address`: LOD 0, mesh 0, the UV Half2 element at offset 8 of
+stream 0 (stride 12), vertex 1 -/
+example : ∃ l mesh s, sampleModel.lods[0]? = some l ∧ l.meshes[0]? = some mesh ∧
+    (⟨0, 8, 13, 4, 0⟩ : VertexElement) ∈ mesh.decl ∧ mesh.streams[(0 : UInt8).toNat]? = some s ∧
+    1 < mesh.vertexCount.toNat ∧ (8 : UInt8).toNat + 4 ≤ s.stride.toNat := by
+  refine ⟨_, _, _, rfl, rfl, ?_, rfl, ?_, ?_⟩ <;> decide
+
 end Physis.C06
